@@ -1,29 +1,48 @@
 """C05 - JSON and XDL encoding round-trips every Var exactly
-(spec/JsonText.tla, JsonTextVar.tla, Trace_JsonTextEnc.tla; shares the build and the text specification with C06)."""
+(spec/JsonText.tla, JsonTextVar.tla, XdlWriter.tla + XdlWriterEnum.tla (the writer: every Json::Mode flag, text-exact),
+XdlFile.tla (Xdl::read design, file contents), Trace_JsonTextEnc.tla; shares the build and the text specification with C06)."""
 import os
 import re
 import subprocess
 import vlib
 
 META = {
-    "engine": "JsonText.tla,JsonTextVar.tla,Trace_JsonTextEnc.tla",
+    "engine": "JsonText.tla,JsonTextVar.tla,XdlWriter.tla,XdlWriterEnum.tla,XdlFile.tla,XdlSM.tla,Trace_JsonTextEnc.tla",
     "technique": "TLC enumerates Var trees (boundary scalars x small shapes, every byte as string/key, pretty-printer line "
                  "rules) with the bit patterns decoding must give; they are built, encoded in every Json/Xdl mode, written to "
                  "files (chunk boundary swept over the value's text) and decoded by the real code under ASan/LSan (R). "
                  "Recorded round trips of random trees are validated by TLC: the strict RFC 8259 recognizer written in TLA+ "
                  "must accept the encoder's text with the tree's value (doubles/floats: bignum half-ulp test on the token) and "
-                 "the decoded projection must equal the tree bit for bit (V)",
+                 "the decoded projection must equal the tree bit for bit (V). The writer itself is specified as a serializer "
+                 "operator Ser(tree, mode) in TLA+ (XdlWriter.tla: every Json::Mode flag, PRETTY line-break/indentation rules, "
+                 "XDL dialect with class names and Y/N, %g number formatting from digit tables proved by bignum arithmetic, "
+                 "NaN/infinity/NONE exceptions); TLC proves on the enumerated (tree, mode) pairs that Ser's output is inside the "
+                 "RFC 8259 recognizer (JSON) / accepted by the parser design XdlSM (XDL) with the tree's value, and the real "
+                 "encoder must produce exactly these bytes (R), also through Json::write/Xdl::write; recorded random trees must "
+                 "match Ser with number tokens as holes (V). Xdl::read's BOM probe / chunk loop is a TLA+ design proved equal "
+                 "to decoding the contents for every buffer size, and enumerated file contents (marks, CR LF, short files, "
+                 "text after the value) are read by the real code (R)",
     "design_ref": "DESIGN.md section 6, C05/C06",
     "level_text": "TLC checks the round-trip law Recognize(Encode(tree)) = tree on the specification's reference encoder for every "
                   "enumerated tree, replays every enumerated tree through the real encoder/decoder in 8 string modes, 4 file modes "
                   "and the chunk-boundary sweep, and validates recorded (tree, text, decoded) triples of random trees with the "
-                  "recognizer and exact decimal/IEEE arithmetic on 16-bit limbs (no floating point in the oracle).",
+                  "recognizer and exact decimal/IEEE arithmetic on 16-bit limbs (no floating point in the oracle). "
+                  "XdlWriter/XdlWriterEnum: the encoder's output is compared byte for byte with the specification's serializer "
+                  "for every enumerated tree in every flag combination (16 documented combinations + 4 with the undocumented "
+                  "COMPACT/EXACT bits in the quick tier, all 64 mode values in the thorough tier) after TLC has proved the "
+                  "serializer's texts valid and value-preserving (JsonLaw, XdlLaw, LayoutLaw, ModeLaw); XdlFile: FileLaw/PadLaw "
+                  "proved by TLC for buffer sizes 1..40, the pre-fix BOM probe refuted, 4800 file contents read by the real code.",
     "level_note": "Bounded enumeration (spec/JsonTextVar.tla tables) plus seeded random trees. TLC has no floating point: IEEE "
                   "patterns are opaque limbs; that a token denotes a double is decided by an exact bignum test (|token - double| <= "
                   "half an ulp, ties to even), which covers what any correctly rounding reader returns; that libc's strtod is "
                   "correctly rounding is observed through the decoded bit patterns, not proved. In the reduced-precision modes "
                   "(SIMPLE/NICE, Xdl::encode's default) only structure, strings, ints and number-ness are demanded. NONE-typed "
-                  "members and non-finite numbers are outside the property's domain. Memory safety is observed (ASan/LSan).",
+                  "members and non-finite numbers are outside the property's domain; the writer specification states what "
+                  "happens to them (XdlWriter!Lossy: NaN and NONE become null, NONE members are dropped, +-infinity is written "
+                  "as +-1e400 which only readers that overflow to infinity recover). The layout of the undocumented COMPACT/EXACT "
+                  "bits is left open (only round trip demanded). Results for file contents that are not one RFC 8259 document "
+                  "(text after the value, several values, partial byte-order marks) are only required to equal decoding the same "
+                  "contents from a string. Memory safety is observed (ASan/LSan).",
 }
 
 ACT_RE = re.compile(r'"act":"([^"]*)"')
@@ -35,24 +54,51 @@ def run(ctx):
     rec = vlib.build_harness(lib, "c05_record", ["c05_record.cpp"])
     tier = "quick" if ctx.quick else "thorough"
     ctx.rule = ("R: one case per enumerated Var tree (executed in 8 encode modes, 4 file modes, flagged ones in the chunk "
-                "boundary sweep); non-trivial = the tree is an array or object; V: one event per recorded round trip")
-    seen = {}
+                "boundary sweep), per (tree, mode) pair of the writer enumeration and per file content; non-trivial = the tree "
+                "is an array or object / the file has >= 3 bytes; V: one event per recorded round trip")
+    import concurrent.futures as cf
 
-    def tally(line):
-        m = ACT_RE.search(line)
-        if m:
-            seen[m.group(1)] = seen.get(m.group(1), 0) + 1
-        return line
+    def generate(spec, need):
+        """One enumerating module: TLC prints one case per transition (the laws of the module are its invariants); vacuity is
+        measured on the ghost act field of the printed cases.  Returns (case file, number of cases)."""
+        seen = {}
 
-    cases = os.path.join(ctx.tmp, "c05.cases")
-    ctx.model("JsonTextVar", "MC_JsonTextVar_" + tier, emit_to=cases, timeout=ctx.pick(300, 1200), workers=4, xmx="4g", xss="256m",
-              must_cover=False, emit_filter=tally)
-    missing = [a for a in ("Scalar", "Pair", "Byte", "Key", "Special") if a not in seen]
-    if missing:
-        raise vlib.HarnessError("JsonTextVar: vacuous run, never produced: %s" % missing)
+        def tally(line):
+            m = ACT_RE.search(line)
+            if m:
+                seen[m.group(1)] = seen.get(m.group(1), 0) + 1
+            return line
+
+        out = os.path.join(ctx.tmp, spec + ".cases")
+        ctx.model(spec, "MC_%s_%s" % (spec, tier), emit_to=out, timeout=ctx.pick(300, 1200), workers=4, xmx="4g", xss="256m",
+                  must_cover=False, emit_filter=tally)
+        missing = [a for a in need if a not in seen]
+        if missing:
+            raise vlib.HarnessError("%s: vacuous run, never produced: %s" % (spec, missing))
+        return out, sum(seen.values())
+
+    def file_defect():
+        # the pre-fix BOM probe (no seek back on files shorter than 3 bytes) must be refuted by TLC itself
+        r = vlib.tlc("XdlFile", "MC_XdlFile_defect", timeout=600, xss="256m", xmx="4g", workers=2)
+        if r.violated() != "FileLaw":
+            raise vlib.HarnessError("XdlFile/defect: TLC did not refute the BOM probe without rewind (%s)\n%s" % (r.violated(), r.tail()))
+
+    # the three enumerations are independent TLC runs: side by side, then replayed one after the other
+    #   JsonTextVar   - Var trees with the bit patterns decoding must give (round trip in 8 string modes, 4 file modes, chunk sweep)
+    #   XdlWriterEnum - Ser(tree, mode) of spec/XdlWriter.tla for every flag combination, text-exact against the real encoder
+    #   XdlFile       - the design of Xdl::read proved equal to decoding the contents for every buffer size; file contents
+    with cf.ThreadPoolExecutor(4) as ex:
+        jv = ex.submit(generate, "JsonTextVar", ("Scalar", "Pair", "Byte", "Key", "Special"))
+        jw = ex.submit(generate, "XdlWriterEnum", ("WScalar", "WArray", "WObject", "WJsonKeys"))
+        jf = ex.submit(generate, "XdlFile", ("Bom", "Short", "Plain"))
+        jd = ex.submit(file_defect)
+        (cases, ntrees), (wcases, nwriter), (fcases, nfiles) = jv.result(), jw.result(), jf.result()
+        jd.result()
+    ctx.engines.append("XdlFile/MC_XdlFile_defect: BOM probe that does not seek back on files shorter than 3 bytes refuted by TLC (FileLaw) as expected")
     ctx.exhaustive = True
-    ctx.replay(rep, cases, label="R/JsonTextVar", args=("--tmpdir", ctx.tmp), timeout=ctx.pick(600, 3000))
-    os.unlink(cases)
+    for label, path in (("R/JsonTextVar", cases), ("R/XdlWriterEnum", wcases), ("R/XdlFile", fcases)):
+        ctx.replay(rep, path, label=label, args=("--tmpdir", ctx.tmp), timeout=ctx.pick(600, 3000))
+        os.unlink(path)
     # V: random trees through the real encoder/decoder, judged by TLC
     files = ctx.record(rec, ctx.pick(8, 24), ctx.pick(450, 1200), "V/JsonTextEnc")
     ctx.validate_traces("Trace_JsonTextEnc", "Trace_JsonTextEnc", files, label="V/JsonTextEnc", timeout=ctx.pick(600, 3000),
@@ -62,7 +108,8 @@ def run(ctx):
         big = ctx.record(rec, 2, 1, "V/JsonTextEnc-huge", extra_args=("--mode", "1"))
         ctx.validate_traces("Trace_JsonTextEnc", "Trace_JsonTextEnc", big, label="V/JsonTextEnc-huge", timeout=3000, xss="1g", xmx="8g")
     ctx.assumptions += [
-        "exhaustive over the tables of spec/JsonTextVar.tla (%d trees); beyond them seeded random trees" % sum(seen.values()),
+        "exhaustive over the tables of spec/JsonTextVar.tla (%d trees), spec/XdlWriterEnum.tla (%d tree x mode pairs) and "
+        "spec/XdlFile.tla (%d file contents); beyond them seeded random trees" % (ntrees, nwriter, nfiles),
         "IEEE bit patterns are opaque to TLC; token <-> pattern is decided by exact bignum arithmetic (half-ulp test), not by floating point",
         "memory errors and leaks are observed by ASan/LSan on the executed round trips, not decided by the model",
         "strings and keys are NUL-free byte strings; XDL round trips use identifier keys ([A-Za-z_][A-Za-z0-9_]*)",
